@@ -201,6 +201,20 @@ def run_case(case, ctx):
         kw['step'] = nd.MinStepGenerator(**case['opts'])
     elif case['src'] == 'max':
         kw['step'] = nd.MaxStepGenerator(**case['opts'])
+    x_call = x
+    if cls == 'Gradient' and isinstance(x, np.ndarray) and x.ndim == 1 and x.size % 2 == 0 and x.size >= 4 and case['fseed'] % 2 == 0:
+        # Gradient documents an n x m x0 as a point with n*m coordinates (row-major): the same point as a matrix, in C order,
+        # Fortran order or as a strided view; the evaluation points are judged against x.ravel()
+        mat = x.reshape(2, x.size // 2)
+        lay = ['F', 'C', 'F', 'strided'][(case['fseed'] // 2) % 4]
+        if lay == 'F':
+            mat = np.asfortranarray(mat)
+        elif lay == 'strided':
+            big = np.zeros((2, x.size))
+            big[:, ::2] = mat
+            mat = big[:, ::2]
+        x_call = mat
+        ctx.count('gradient_matrix_x:' + lay)
     del _steps_seen[:]
     _state['diff'] = None
     x_keep = np.array(x, copy=True)
@@ -215,7 +229,7 @@ def run_case(case, ctx):
                     kw0['order'] = hist['order']
                 obj = getattr(nd, cls)(rec, **kw0)
                 try:
-                    obj(x)
+                    obj(x_call)
                 except Exception:
                     pass
                 if 'order' in kw0 and hist['order'] != order:
@@ -226,9 +240,9 @@ def run_case(case, ctx):
                 del _steps_seen[:]
                 _state['diff'] = None
                 ctx.count('configuration_reached_through_setters')
-                obj(x)
+                obj(x_call)
             else:
-                getattr(nd, cls)(rec, **kw)(x)
+                getattr(nd, cls)(rec, **kw)(x_call)
     except ValueError as exc:
         # too few steps for the rule etc.: legitimate refusals; the calls made so far are still checked
         ctx.count('library_raised_ValueError(points seen so far still checked)')
